@@ -888,7 +888,6 @@ func mmEngine(root []MNode, files map[string][]MNode, globals, ctx Val) (string,
 	return out, err, c, set
 }
 
-
 // mmEngineSeq compiles once and executes the same compiled template with each context in turn.
 func mmEngineSeq(root []MNode, files map[string][]MNode, globals Val, ctxs []Val) ([]string, []error, error) {
 	fs := map[string]string{}
